@@ -1554,9 +1554,9 @@ def process_fn(fn, spec, handle, stats, canary):
     # names it as the trait declaration does (`value`, `err`, `observer`).  The signature gets the trait's name and the
     # body starts with `let item = value;` — the same function up to the name of its parameter.
     canon_ = {"next": "value", "error": "err", "actual_subscribe": "observer"}.get(name)
-    if canon_ and re.search(r"\b%s\b" % canon_, ctx_ + "\n" + body):
+    if canon_ and re.search(r"(?<![\w.])%s\b" % canon_, mask_trivia(ctx_)):
         pm_ = re.search(r"\(\s*(?:&\s*(?:mut\s+)?|mut\s+)?self\s*,\s*(mut\s+)?(\w+)\s*:\s*[^,()]+\)\s*(?:->|$|where|\{)", sig.strip() + "")
-        if pm_ and pm_.group(2) != canon_ and pm_.group(2) != "_" + canon_ and not re.search(r"(?<![\w.])%s\b" % canon_, mask_trivia(sig)) \
+        if pm_ and pm_.group(2) != canon_ and pm_.group(2) != "_" + canon_ and not re.search(r"(?<![\w.])%s\b" % re.escape(pm_.group(2)), mask_trivia(ctx_)) and not re.search(r"(?<![\w.])%s\b" % canon_, mask_trivia(sig)) \
                 and not re.search(r"\blet\s+(?:mut\s+)?%s\b" % canon_, mask_trivia(body)):
             real_ = pm_.group(2)
             sig = re.sub(r"(\(\s*(?:&\s*(?:mut\s+)?|mut\s+)?self\s*,\s*)(mut\s+)?%s(\s*:)" % re.escape(real_), r"\g<1>%s\3" % canon_, sig, count=1)
